@@ -86,6 +86,8 @@ type Program struct {
 	SmemStyle int `json:"smem_style"`
 	// FinalWait emits s_waitcnt vmcnt(0) before s_endpgm
 	FinalWait bool `json:"final_wait"`
+	// GFX9 compiles with the gfx9/CDNA3 encodings (for the CDNA3 emulator)
+	GFX9 bool `json:"gfx9,omitempty"`
 }
 
 // producesValue reports whether an op kind appends a value.
